@@ -39,7 +39,48 @@ def nan_case_1d(rng, fn, n=None):
     return arrs, w
 
 
+def recipe_masked_vs_deleted(ctx):
+    """for ~35 public functions: blank one index of a data dimension with NaN in every input that has it, reduce over that
+    dimension, and compare with the run where that index is deleted from all inputs"""
+    import recipes
+    rng = ctx.rng
+    R = [rc for rc in recipes.recipes() if rc.dims_kw and rc.name not in ("fss_2d",)]
+    for it in range(ctx.n(6, 40)):
+        for rc in R:
+            if not ctx.time_left():
+                return
+            xs = [recipes.mat(x) for x in rc.gen(rng)]
+            cand = [d for d in xs[0].dims if d not in rc.nondata and xs[0].sizes[d] >= 2]
+            if not cand:
+                continue
+            d = rng.choice(cand)
+            lab = rng.choice(list(xs[0][d].values))
+            masked, deleted = [], []
+            for x in xs:
+                if d in x.dims:
+                    masked.append(recipes.mat(x.where(x[d] != lab)))
+                    deleted.append(recipes.mat(x.sel({d: [v for v in x[d].values if v != lab]})))
+                else:
+                    masked.append(x)
+                    deleted.append(x)
+            others = [e for e in xs[0].dims if e not in rc.nondata and e != d]
+            kw = {"reduce_dims": [d]} if rng.random() < 0.5 else {"preserve_dims": others}
+            a = core.call_impl(rc.call, masked, **kw)
+            b = core.call_impl(rc.call, deleted, **kw)
+            desc = {"fn": rc.name, "inputs": [gens.da_repr(x) for x in xs], "blanked": {d: int(lab)}, "kw": kw}
+            ctx.case(desc, a[0] == "ok")
+            ctx.count("recipe:" + rc.name)
+            ok, why = scorelib.same_result(a, b, tol=1e-8)
+            if not ok:
+                ctx.violation(f"{rc.name}: blanking {d}={lab} with NaN differs from deleting that case from all inputs: {why}", desc, "equal", why)
+
+
 def run(ctx):
+    registry_nan(ctx)
+    recipe_masked_vs_deleted(ctx)
+
+
+def registry_nan(ctx):
     rng = ctx.rng
     for it in range(ctx.n(25, 300)):
         for name, fn in REGISTRY.items():
